@@ -959,7 +959,16 @@ def _alter_files(
         if wt_path is not None:
             trans_id = tt.trans_id_tree_path(wt_path)
         else:
-            trans_id = tt.assign_id()
+            file_id = getattr(change, "file_id", None)
+            if file_id is not None and getattr(
+                working_tree, "supports_file_ids", False
+            ):
+                # An earlier change may already have looked this entry up as
+                # the parent of something moved back into it: there must be
+                # one transform id per file id.
+                trans_id = tt.trans_id_file_id(file_id)
+            else:
+                trans_id = tt.assign_id()
         if change.changed_content:
             keep_content = False
             if wt_kind == "file" and (backups or target_kind is None):
